@@ -253,7 +253,7 @@ def cells(tier):
             out.append(Cell(f"stored==live/{sname}/{kind}", (lambda I, st=st, kind=kind: h_step_counters(I, st, kind, 1 if quick else 2)),
                             dict(state=sname, inbound=kind, counters="symbolic, 1 digit" if quick else "symbolic, 2 digits"),
                             goals=["compared"], regions=reg, budget_s=2400))
-    for n, ms in (((1, 2), (2, 1)) if quick else ((1, 2), (2, 2), (3, 1))):
+    for n, ms in (((1, 2), (2, 1)) if quick else ((1, 2), (2, 2))):
         for fr in ((None,) if n == 1 else (0, 1, 2)):
             goals = ["done"] + (["restarted"] if fr != 2 else [])
             out.append(Cell(f"restart-quiescent/{n}" + ("" if fr is None else "/" + ("A", "B", "nobody")[fr] + "-first"),
